@@ -70,6 +70,10 @@ type Chain struct {
 	Forks []uint64
 }
 
+// HasFeeCap: transaction types that carry maxFeePerGas / maxPriorityFeePerGas
+// (EIP-1559 and its successors: blob 0x3, set-code 0x4).
+func (tx *Tx) HasFeeCap() bool { return tx.Type >= 2 && tx.Type <= 4 }
+
 func hashOf(tag byte, num, version uint64) []byte {
 	h := make([]byte, 32)
 	h[0] = tag
